@@ -269,7 +269,7 @@ func batchGates(rule, tier string) []*Scenario {
 	b := Bounds{1, 1, 0}
 	if tier != "quick" {
 		b = Bounds{2, -1, 0}
-		toks = append(toks, "[uuugc]", "[ugcu]", "[xugcc]", "[dgc]", "[yygc]")
+		toks = append(toks, "[uuugc]", "[ugcu]", "[xugcc]", "[yygc]", "[vvgn]")
 	}
 	for _, t := range toks {
 		out = append(out, batchGate(rule, t, 3, b))
@@ -296,6 +296,8 @@ func c03Scenarios(tier string) []*Scenario {
 			out = append(out, c03Seq(t, 2, xNone, b))
 		}
 		out = append(out, c03Seq([]string{"n", "c"}, 3, xNone, Bounds{2, -1, 0}), c03Seq([]string{"n", "i"}, 2, xNone, Bounds{2, -1, 0}))
+		// one environment deviation (a wake-up that finds its receiver not parked yet, a buffered send handed over directly)
+		out = append(out, c03Seq([]string{"n", "c", "c"}, 2, xNone, Bounds{1, -1, 1}), c03Seq([]string{"c", "n"}, 1, xNone, Bounds{1, -1, 1}))
 		// Concurrency 1: ordering must not be left to the execution slot
 		for _, t := range [][]string{{"n", "c"}, {"n", "n"}, {"c", "n", "c"}, {"[nc]", "n"}, {"n", "n", "c"}, {"n", "i"}, {"[nn]", "[ic]"}} {
 			b := Bounds{2, -1, 0}
